@@ -457,7 +457,7 @@ pub fn c10_malform(n_headers: usize) -> BoxedStrategy<Malform> {
         2 => (0u8..3).prop_map(Malform::ReqLineFields),
         3 => proptest::sample::select(vec!["HTTP/1.2", "HTTP/1.10", "HTTP/2", "HTTP/4.0", "http/1.1", "HTTP/1.1x", "HTTP1.1", "HTTP/", "xyz", "HTTP/01.1", "HTTP/1.1.1", "HTTP/11"]).prop_map(|s| Malform::VersionToken(s.to_string())),
         3 => proptest::sample::select(vec!["HTTP/2.0", "HTTP/3.0"]).prop_map(|s| Malform::VersionToken(s.to_string())),
-        2 => (0..=nh, proptest::sample::select(vec!["NoColonHere", "X-Broken value", "garbage", "Host"])).prop_map(|(at, t)| Malform::HeaderNoColon { at, text: t.to_string() }),
+        2 => (0..=nh, proptest::sample::select(vec!["NoColonHere", "X-Broken value", "garbage", "Host", " ", "\t", "  \t ", " x", "a b c", "="])).prop_map(|(at, t)| Malform::HeaderNoColon { at, text: t.to_string() }),
         2 => (prop_oneof![Just(Place::RequestLine), (0..nh).prop_map(Place::HeaderName), (0..nh).prop_map(Place::HeaderValue)], 0x80u8..=0xff).prop_map(|(place, byte)| Malform::NonAscii { place, byte }),
         2 => proptest::sample::select(vec!["100 continue", "100-continue, x", "200-ok", "continue", "100-continuee", "", "\"100-continue\""]).prop_map(|s| Malform::Expect(s.to_string())),
     ]
@@ -739,6 +739,42 @@ pub fn c06_strategy(transports: BoxedStrategy<Transport>, with_panic: bool) -> B
             }
             let total = total_len(&conv);
             let script = vec![Step::Send { from: 0, to: total }, Step::HalfClose];
+            ConvCase { conv, progs, script, transport }
+        })
+        .boxed()
+}
+
+/// C06, "a dropped request never holds up ...": the client withholds part of a streamed body
+/// until the answer to that request has arrived
+pub fn c06_withhold_strategy(transports: BoxedStrategy<Transport>) -> BoxedStrategy<ConvCase> {
+    let framing = prop_oneof![
+        3 => prop_oneof![Just(1025usize), Just(3000usize), Just(20000usize)].prop_map(|n| (Framing::Length { n }, false)),
+        3 => prop_oneof![Just(5usize), Just(1500usize), Just(9000usize)].prop_flat_map(chunks_strategy).prop_map(|chunks| (Framing::Chunked { chunks, last_zeros: 0, last_ext: None }, false)),
+        2 => prop_oneof![Just(1usize), Just(600usize), Just(1024usize)].prop_map(|n| (Framing::Length { n }, true)),
+    ];
+    // (into_writer() consumes the request and therefore drains the unread body before the
+    // application can write: not covered by the statement, so not generated here)
+    let finish = prop_oneof![4 => Just(Finish::Drop), 2 => small_respond()];
+    (framing, finish, prop_oneof![Just(ReadPlan::None), Just(ReadPlan::Sizes(vec![1]))], 0usize..3, 0u16..1000, transports, any::<u32>())
+        .prop_map(|((framing, expect), finish, read, followers, frac, transport, mask)| {
+            let mut conv = Conversation::default();
+            // with an expectation the application must not ask for the body (else it would get a 100 first)
+            // (a 1-byte read of a chunked body needs the whole chunk-size line: keep it to Content-Length)
+            let read = if expect || matches!(framing, Framing::Chunked { .. }) { ReadPlan::None } else { read };
+            conv.reqs.push(build_req(0, "POST".into(), "/held".into(), "HTTP/1.1", vec![Hdr::new("Host", "h")], framing, None, 1, mask, None, expect));
+            let mut progs = vec![Prog { read: read.clone(), finish }];
+            for i in 0..followers {
+                conv.reqs.push(sentinel(1 + i as u32));
+                progs.push(Prog::ok());
+            }
+            let rd = render(&conv);
+            let r0 = &rd.ranges[0];
+            let body_len = r0.end - r0.head_end;
+            // the application may read 1 byte: keep at least 2 bytes of body on the wire then
+            let min_sent = if matches!(read, ReadPlan::Sizes(_)) { 8.min(body_len.saturating_sub(1)) } else { 0 };
+            let sent_body = (min_sent + (frac as usize * body_len.saturating_sub(min_sent + 1)) / 1000).min(body_len.saturating_sub(1));
+            let cut = r0.head_end + sent_body;
+            let script = vec![Step::Send { from: 0, to: cut }, Step::AwaitFinals(1), Step::Send { from: cut, to: rd.bytes.len() }, Step::HalfClose];
             ConvCase { conv, progs, script, transport }
         })
         .boxed()
